@@ -3,6 +3,7 @@ from trie.smt import SparseMerkleTree, calc_root
 
 from ..core import HarnessError, Violation, deep, hx, unhx
 from ..models.smtref import RefSMT
+from ..hworld import in_handler
 from ..simdb import SimDB
 
 ID = "C14"
@@ -28,6 +29,8 @@ PROBES = [
     "from-db-reopen",
     "all-cleared-initial-root",
     "rewrite-same-value",
+    "value-is-a-node-body",
+    "value-is-a-default-subtree-body",
 ]
 FAULTS = ["crash-reopen"]
 COMPONENTS = {
@@ -68,7 +71,7 @@ class SWorld:
             fn = getattr(self, "op_" + cmd["op"], None)
             if fn is None:
                 raise HarnessError(f"unknown command {cmd!r}")
-            out = fn(cmd)
+            out = in_handler(fn, cmd) if cmd.get("hdl") else fn(cmd)
             self.st.rec(self.ev, cmd["op"], out, self.smt.root_hash)
             self.st.sched_rec(cmd["op"], out)
             self.st.state(self.smt.root_hash)
@@ -147,6 +150,18 @@ class SWorld:
 
     def op_set(self, cmd):
         k, v = unhx(cmd["k"]), unhx(cmd["v"])
+        if "vb" in cmd:
+            # the value is the body of a node this very store holds (e.g. the 64-byte
+            # body of an all-default subtree): legal bytes like any other
+            bodies = sorted(set(b for b in self.db.raw().values() if b))
+            if bodies:
+                v = bodies[cmd["vb"] % len(bodies)]
+                self.st.probe("value-is-a-node-body")
+        if "vd" in cmd:
+            # the value is the body of the all-default subtree of height vd (64 bytes)
+            h = self.ref.d[self.ref.depth - (int(cmd["vd"]) - 1) % self.ref.depth]
+            v = h + h
+            self.st.probe("value-is-a-default-subtree-body")
         smt = self.smt
         fn = (lambda: smt.__setitem__(k, v)) if cmd.get("via") == "d" else (lambda: smt.set(k, v))
         if v == b"" and self.default != b"":
@@ -285,18 +300,29 @@ def make_values(rng, default):
 def gen_history(rng, keys, vals, n):
     cmds = []
     w_del = rng.choice([1, 2, 4])
+    p_body = rng.choice([0.0, 0.0, 0.2, 0.5])
+    body_idx = rng.randrange(1000)  # mostly one special body per run, so that several keys share it
+    p_hdl = rng.choice([0.0, 0.0, 0.1, 0.3])
     for _ in range(n):
         r = rng.random() * (6 + w_del + 3 + 0.5)
         k = hx(rng.choice(keys))
         via = rng.choice(["m", "m", "d"])
         if r < 6:
-            cmds.append({"op": "set", "k": k, "v": hx(rng.choice(vals)), "via": via})
+            c = {"op": "set", "k": k, "v": hx(rng.choice(vals)), "via": via}
+            if rng.random() < p_body:
+                if rng.random() < 0.5:
+                    c["vd"] = rng.choice([1, 1, 1, 2, 3])
+                else:
+                    c["vb"] = body_idx if rng.random() < 0.8 else rng.randrange(1000)
+            cmds.append(c)
         elif r < 6 + w_del:
             cmds.append({"op": "del", "k": k, "via": via})
         elif r < 9 + w_del:
             cmds.append({"op": "get", "k": k, "api": rng.choice(["get", "exists", "in", "getitem"])})
         else:
             cmds.append({"op": "reopen"})
+        if rng.random() < p_hdl:
+            cmds[-1]["hdl"] = 1
     return cmds
 
 
